@@ -205,6 +205,10 @@ def _stores(fnode, attr):
 
 def _r2_new_turns(ctx, prog):
     ctx.rule("R-C01-2", floor=5, what="_new_turns: offset from pre-update state; head += len(chunk) exactly once; tail from local index; flush index from updated head")
+    _r2_new_turns_core(ctx, prog)
+
+
+def _r2_new_turns_core(ctx, prog):
     fi = prog.func(GEN + ":AbstractDetector._new_turns")
     cfg = CFG(fi.node)
     chunk = [p for p in fi.params if p != "self"][0]
@@ -283,8 +287,25 @@ def _r2_new_turns(ctx, prog):
         defs = [s for s in walk_function(fi.node) if isinstance(s, ast.Assign) and isinstance(lower, ast.Name) and
                 any(isinstance(t, ast.Name) and t.id == lower.id for t in s.targets)]
         uses_idx = defs and idx_name in names_in(defs[0].value)
+
+        def last_or_zero(e):
+            # idx[-1] if <idx non-empty> else 0
+            if not isinstance(e, ast.IfExp):
+                return False
+            b, o = e.body, e.orelse
+            last = isinstance(b, ast.Subscript) and isinstance(b.value, ast.Name) and b.value.id == idx_name and \
+                isinstance(b.slice, ast.UnaryOp) and isinstance(b.slice.op, ast.USub) and const_value(b.slice.operand) == 1
+            t = e.test
+            nonempty = isinstance(t, ast.Compare) and len(t.ops) == 1 and isinstance(t.ops[0], ast.Gt) and \
+                const_value(t.comparators[0]) == 0 and idx_name in names_in(t.left)
+            return last and nonempty and const_value(o) == 0
         if not defs or not uses_idx:
             ctx.violated(fi, ts, "tail start %s does not derive from the last local turn index" % norm_text(lower))
+        elif len(defs) != 1 or not last_or_zero(defs[0].value):
+            ctx.violated(fi, defs[-1], "the kept sample tail does not start exactly at the last turning point found (or at 0 if "
+                         "there is none): %s; a shorter tail forgets the pending extremum and everything that decides whether it "
+                         "is a reversal, a longer one re-reports turning points" %
+                         " ; ".join(norm_text(d) for d in defs), text="tail start " + " ; ".join(norm_text(d.value) for d in defs))
         elif cfg.node(off) in cfg.reachable(cfg.entry, avoid={cfg.node(defs[0])}) and \
                 cfg.node(defs[0]) in cfg.reachable(cfg.node(off)):
             ctx.violated(fi, defs[0], "tail start is read from the turn index after it was shifted to global indices")
@@ -597,6 +618,17 @@ FN = "src/pylife/stress/rainflow/fkm_nonlinear.py"
 
 def variants():
     out = []
+
+    def tail_last_two(tree):
+        f = find_func(tree, "AbstractDetector._new_turns")
+        for i, st in enumerate(f.body):
+            if isinstance(st, ast.Assign) and is_self_attr(st.targets[0], "_sample_tail"):
+                lo = st.value.slice.lower
+                arr = ast.unparse(st.value.value)
+                f.body.insert(i, parse_stmt("%s = max(%s, len(%s) - 2)" % (ast.unparse(lo), ast.unparse(lo), arr)))
+                return True
+        return False
+    out.append(witness("sample tail truncated to the last two samples", GP, tail_last_two, "R-C01-2"))
 
     def shortcut_no_turn(tree):
         f = find_func(tree, "FourPointDetector.process")
